@@ -100,6 +100,8 @@ pub struct VhostUserHandler<T: VhostUserBackend> {
     queues_per_thread: Vec<u64>,
     mappings: Vec<AddrMapping>,
     atomic_mem: GM<T::Bitmap>,
+    /// Dirty log installed by SET_LOG_BASE; it stays in force for memory installed later.
+    log: Option<Arc<MmapLogReg>>,
     vrings: Vec<T::Vring>,
     #[cfg(feature = "postcopy")]
     uffd: Option<Uffd>,
@@ -161,6 +163,7 @@ where
             queues_per_thread,
             mappings: Vec::new(),
             atomic_mem,
+            log: None,
             vrings,
             #[cfg(feature = "postcopy")]
             uffd: None,
@@ -252,6 +255,27 @@ where
             Err(VhostUserError::InactiveFeature(feat))
         }
     }
+}
+
+/// Point the dirty bitmap of every region of `mem` at `logmem`. All bitmaps are created before
+/// any of them is installed, so a log that is too small for one region changes nothing.
+fn apply_log<B: BitmapReplace + NewBitmap>(
+    mem: &GuestMemoryMmap<B>,
+    logmem: &Arc<MmapLogReg>,
+) -> VhostUserResult<()> {
+    let mut bitmaps = Vec::new();
+    for region in mem.iter() {
+        let bitmap = <B::InnerBitmap as MemRegionBitmap>::new(region, Arc::clone(logmem))
+            .map_err(VhostUserError::ReqHandlerError)?;
+
+        bitmaps.push((region, bitmap));
+    }
+
+    for (region, bitmap) in bitmaps {
+        (*region).bitmap().replace(bitmap);
+    }
+
+    Ok(())
 }
 
 impl<T: VhostUserBackend> VhostUserBackendReqHandlerMut for VhostUserHandler<T>
@@ -355,6 +379,11 @@ where
 
         let mem = GuestMemoryMmap::from_regions(regions)
             .map_err(|e| VhostUserError::ReqHandlerError(io::Error::other(e)))?;
+
+        // Dirty logging stays in force for the new memory.
+        if let Some(logmem) = &self.log {
+            apply_log(&mem, logmem)?;
+        }
 
         // Updating the inner GuestMemory object here will cause all our vrings to
         // see the new one the next time they call to `atomic_mem.memory()`.
@@ -668,6 +697,11 @@ where
             .insert_region(guest_region)
             .map_err(|e| VhostUserError::ReqHandlerError(io::Error::other(e)))?;
 
+        // Dirty logging stays in force for the new region.
+        if let Some(logmem) = &self.log {
+            apply_log(&mem, logmem)?;
+        }
+
         let old_mem = (*self.atomic_mem.memory()).clone();
         self.atomic_mem.lock().unwrap().replace(mem);
 
@@ -806,21 +840,8 @@ where
                 .map_err(VhostUserError::ReqHandlerError)?,
         );
 
-        // Let's create all bitmaps first before replacing them, in case any of them fails
-        let mut bitmaps = Vec::new();
-        for region in mem.iter() {
-            let bitmap = <<T as VhostUserBackend>::Bitmap as BitmapReplace>::InnerBitmap::new(
-                region,
-                Arc::clone(&logmem),
-            )
-            .map_err(VhostUserError::ReqHandlerError)?;
-
-            bitmaps.push((region, bitmap));
-        }
-
-        for (region, bitmap) in bitmaps {
-            (*region).bitmap().replace(bitmap);
-        }
+        apply_log(&mem, &logmem)?;
+        self.log = Some(logmem);
 
         Ok(())
     }
